@@ -63,8 +63,8 @@ CLAIMS = {
         "technique": "who-writes inventory + success-edge dominance on field tests + copy-chain provenance",
     },
     "C15": {
-        "text": "Decides one clause structurally: inside the dial loop Err is returned only when the resolver stream is finished AND the address queue is empty AND no attempt is in flight; `finished` is set only on the stream's None item; every resolved address is queued and the queue is only consumed by pop_family; the first Ok attempt is returned as is. Family preference/alternation and delays are schedule/time and not decided.",
-        "technique": "success-edge dominance on MIR incl. select!-arm payload tests, copy-chain provenance",
+        "text": "Decides two clauses structurally: (1) inside the dial loop Err is returned only when the resolver stream is finished AND the address queue is empty AND no attempt is in flight; `finished` is set only on the stream's None item; every resolved address is queued and the queue is only consumed by pop_family; the first Ok attempt is returned as is; (2) head start of the preferred family: after a resolved address is queued, the action on the next-dial timer is the outcome function preferred => cleared, other family and unarmed => armed with RESOLUTION_DELAY, other family and armed => left alone. Alternation in pop_family and the delays themselves are schedule/time and not decided.",
+        "technique": "success-edge dominance on MIR incl. select!-arm payload tests, copy-chain provenance, decision-tree / outcome-function extraction of the head-start block",
     },
     "C43": {
         "text": "Static lockset nested-acquire rule over every RelayMap method: a second acquisition of the map's RwLock through a possibly aliasing RelayMap value while a guard is held (one side exclusive) is reported unless excluded by Arc::ptr_eq. Map semantics as values are not decided.",
@@ -79,7 +79,7 @@ CLAIMS = {
         "technique": "constructor-site inventory + success-edge dominance + derives-from, constructor-established invariant for accessor panics, who-calls",
     },
     "C33": {
-        "text": "Atomic-pattern rule on the single static LAST_TIMESTAMP: only a load and compare-exchange style RMWs touch it; now() returns exactly the installed value and only on the RMW's Ok edge; installed = max(clock, expected+1) with expected the RMW's expected operand; failed RMW retries from the observed value. One variable => total modification order under Relaxed.",
+        "text": "Atomic-pattern rule on the single static LAST_TIMESTAMP: only a load and compare-exchange style RMWs touch it; now() returns exactly the installed value and only on the RMW's Ok edge; installed = max(clock, expected+1) with expected the RMW's expected operand, at every site that computes it; a failed RMW retries from the observed value and recomputes the value to install on every retry path. One variable => total modification order under Relaxed.",
         "technique": "who-uses inventory of the static, success-edge dominance, copy-chain provenance of RMW operands",
     },
     "C34": {
@@ -95,11 +95,11 @@ CLAIMS = {
         "technique": "who-calls + copy-chain provenance + success-edge dominance (with materialised-condition tracking for matches!)",
     },
     "C37": {
-        "text": "Decides the shape of the Upsert arm: ack(false) exactly on stored.more_recent_than(offered) with that orientation and without table mutation; the update path writes serialize(offered) then acks true; more_recent_than compares self>other on timestamp, tie-break on encoded packet. Permutation invariance over histories is not decided.",
+        "text": "Decides the shape of the Upsert arm: ack(false) exactly on stored.more_recent_than(offered) with that orientation and without table mutation; the update path writes serialize(offered) then acks true; more_recent_than compares self>other on timestamp, tie-break on encoded packet; served = stored: after an acknowledged update every path of ZoneStore::insert invalidates the cached zone for the key. Permutation invariance over histories is not decided.",
         "technique": "match-arm regions on MIR, success-edge dominance, operand orientation by derives-from",
     },
     "C38": {
-        "text": "Static lockset atomic-set rule across await: the resolve path's [store read -> cache fill] and the publish path's [store write -> cache invalidation] share no continuously held cache guard and the publish path does not install the new packet; reported once as a recorded known finding (stale zone served after an acknowledged publish).",
+        "text": "Static lockset atomic-set rule across await: the resolve path's [store read -> cache fill] and the publish path's [store write -> cache invalidation] share no continuously held cache guard and the publish path does not install the new packet; reported once as a recorded known finding (stale zone served after an acknowledged publish). Also decides that every cache layer a query is answered from is cleared by the invalidation, and that the invalidation after an acknowledged update is unconditional (must-pass-through).",
         "technique": "guard-lifetime lockset on coroutine MIR (held-at-call across Yield), derives-from of the fill value",
     },
     "C39": {
@@ -171,7 +171,7 @@ CLAIMS = {
         "technique": "match-arm table extraction, guarded-write idiom check (success-edge dominance on comparison operands), field-write inventory per arm",
     },
     "C29": {
-        "text": "Terminal-item discipline of AddressLookupStream::poll_next on all paths (anchored on its `closed`/`did_emit`/`errors` state): closed checked first, every terminal item after closed=true, NoResults requires !did_emit and carries the buffered errors, did_emit set exactly on Ok items, inner errors buffered and yielded; resolve() is empty iff no services. A refactor of the state representation needs the instance table updated (fails closed). Merge order of services is external.",
+        "text": "Terminal-item discipline of AddressLookupStream::poll_next on all paths (anchored on its `closed`/`did_emit`/`errors` state): closed checked first, every terminal item after closed=true, NoResults requires !did_emit and carries the buffered errors, did_emit set exactly on Ok items, inner errors buffered and yielded; resolve() is the no-services stream exactly when the configured service list itself (provenance to self.services, not a derived collection) is empty. A refactor of the state representation needs the instance table updated (fails closed). Merge order of services is external.",
         "technique": "dominance of flag writes over terminal yields, nested success-edge tests on the polled item",
     },
 }
